@@ -460,45 +460,75 @@ def stakeOnBehalf (s : St) (caller user amount : Nat) (adds : List Pay) : Option
 
 /-! ### claim (claim_stake_farm_rewards.rs, claim_rewards.rs) -/
 
-/-- `claim_rewards_base_no_farm_token_mint(orig, payments)` followed by the optional new value
-    and the tail of `claim_rewards_common`.  Out = (new nonce, new position amount, reward). -/
-def claimCore (s : St) (caller orig : Nat) (pays : List Pay) (newVal : Option Nat) :
-    Option (St × Out) := do
+/-- `claimRewardsWithNewValue`: `farm_token_supply −= amount; += new` (checked) -/
+def newSupply (supply amount : Nat) : Option Nat → Option Nat
+  | none => some supply
+  | some nv => (sub? supply amount).map (· + nv)
+
+/-- `claimRewardsWithNewValue`: `userTotalFarmPosition(orig) −= amount; += new` (checked) -/
+def newUserTotal (ut : Nat → Nat) (orig amount : Nat) : Option Nat → Option (Nat → Nat)
+  | none => some ut
+  | some nv => (sub? (ut orig) amount).map fun v => upd ut orig (v + nv)
+
+/-- intermediate result of `claim_rewards_base_no_farm_token_mint` -/
+structure ClaimMid where
+  /-- holdings after the payments left the caller -/
+  hold0 : Nat → Nat → Nat
+  /-- storage after `generate` -/
+  s1 : St
+  /-- cache after `generate` (reserve not yet reduced) -/
+  c1 : Cache
+  /-- result of the boosted claim of `orig` -/
+  w1 : Weekly.St
+  b1 : B
+  boosted : Nat
+  base : Nat
+  /-- `userTotalFarmPosition` after `check_and_update_user_farm_position` -/
+  ut1 : Nat → Nat
+  merged : Attrs
+
+/-- `claim_rewards_base_no_farm_token_mint(orig, payments)` up to the merged attributes -/
+def claimBase (s : St) (caller orig : Nat) (pays : List Pay) : Option ClaimMid := do
   let hold0 ← debit s.hold caller pays
   req (s.active = true)
   let p ← pays.head?
   let first ← posOf s.md p.1
   let g ← generate s s.cache
-  let s1 := g.1
   let tok ← first.intoPart p.2
-  let base := baseReward g.2 s.dsc p.2 tok
-  let r ← claimBoostedYields s1 orig (s1.userTotal orig)
-  let reserve1 ← sub? g.2.reserve (base + r.2.2)
-  let ut1 ← checkAndUpdate s.md orig s1.userTotal pays
+  let r ← claimBoostedYields g.1 orig (g.1.userTotal orig)
+  let ut1 ← checkAndUpdate s.md orig g.1.userTotal pays
   let merged ← mergeParts s.md ⟨g.2.rps, tok.compounded, tok.amount, orig⟩ pays.tail
-  -- claim_rewards_common: optional new farming amount (proxy)
-  let supply1 ← match newVal with
-    | none => some g.2.supply
-    | some nv => (sub? g.2.supply merged.amount).map (· + nv)
-  let ut2 ← match newVal with
-    | none => some ut1
-    | some nv => (sub? (ut1 orig) merged.amount).map fun v => upd ut1 orig (v + nv)
-  let amt := newVal.getD merged.amount
-  req (0 < amt)
-  let w2 ← updateEnergyAndProgress r.1 orig s1.week (Energy.queried (s1.energy orig) s1.epoch)
-  let bal1 ← sub? s1.bal (base + r.2.2)
-  pure ({ s1 with reserve := reserve1, rps := g.2.rps, supply := supply1
-                  w := w2
-                  b := { r.2.1 with farmSupply := upd r.2.1.farmSupply s1.week supply1 }
-                  userTotal := ut2
-                  nonce := s1.nonce + 1
-                  md := upd s1.md (s1.nonce + 1) (some (.pos { merged with amount := amt }))
-                  hold := upd2 hold0 caller (s1.nonce + 1) amt
-                  bal := bal1
-                  virt := s1.virt + (amt : Int) - (merged.amount : Int)
-                  paidBase := s1.paidBase + base
-                  paidBoosted := s1.paidBoosted + r.2.2 },
-        ⟨s1.nonce + 1, amt, base + r.2.2⟩)
+  pure { hold0 := hold0, s1 := g.1, c1 := g.2, w1 := r.1, b1 := r.2.1, boosted := r.2.2,
+         base := baseReward g.2 s.dsc p.2 tok, ut1 := ut1, merged := merged }
+
+/-- the rest of `claim_rewards_base_no_farm_token_mint` (reserve) and of `claim_rewards_common`:
+    optional new farming amount (proxy), `farmSupplyForWeek`, energy update, new token, payout.
+    Out = (new nonce, new position amount, reward). -/
+def claimFinish (m : ClaimMid) (caller orig : Nat) (newVal : Option Nat) : Option (St × Out) := do
+  let reserve1 ← sub? m.c1.reserve (m.base + m.boosted)
+  let supply1 ← newSupply m.c1.supply m.merged.amount newVal
+  let ut2 ← newUserTotal m.ut1 orig m.merged.amount newVal
+  req (0 < newVal.getD m.merged.amount)
+  let w2 ← updateEnergyAndProgress m.w1 orig m.s1.week (Energy.queried (m.s1.energy orig) m.s1.epoch)
+  let bal1 ← sub? m.s1.bal (m.base + m.boosted)
+  pure ({ m.s1 with reserve := reserve1, rps := m.c1.rps, supply := supply1
+                    w := w2
+                    b := { m.b1 with farmSupply := upd m.b1.farmSupply m.s1.week supply1 }
+                    userTotal := ut2
+                    nonce := m.s1.nonce + 1
+                    md := upd m.s1.md (m.s1.nonce + 1)
+                            (some (.pos { m.merged with amount := newVal.getD m.merged.amount }))
+                    hold := upd2 m.hold0 caller (m.s1.nonce + 1) (newVal.getD m.merged.amount)
+                    bal := bal1
+                    virt := m.s1.virt + (newVal.getD m.merged.amount : Int) - (m.merged.amount : Int)
+                    paidBase := m.s1.paidBase + m.base
+                    paidBoosted := m.s1.paidBoosted + m.boosted },
+        ⟨m.s1.nonce + 1, newVal.getD m.merged.amount, m.base + m.boosted⟩)
+
+def claimCore (s : St) (caller orig : Nat) (pays : List Pay) (newVal : Option Nat) :
+    Option (St × Out) := do
+  let m ← claimBase s caller orig pays
+  claimFinish m caller orig newVal
 
 /-- `claimRewards(opt_original_caller)` with exactly one payment -/
 def claimRewards (s : St) (caller : Nat) (orig : Option Nat) (pay : Pay) : Option (St × Out) :=
